@@ -193,6 +193,12 @@ pub fn txt_menu() -> Vec<(Vec<u8>, String)> {
     let mut v = vec![plain("hi"), plain("a b  c"), plain("semi;colon(paren)"), plain("x")];
     v.push((vec![65, 0, 255, 34, 92], "\\065\\000\\255\\034\\092".to_string()));
     v.push((vec![b'a', 200, b'z'], "a\\200z".to_string()));
+    // 1100 bytes written entirely as decimal escapes: 4400 characters of text for a record of about 1.1 KB
+    {
+        let raw: Vec<u8> = (0..1100usize).map(|i| (i % 251) as u8).collect();
+        let q: String = raw.iter().map(|b| format!("\\{:03}", b)).collect();
+        v.push((raw, q));
+    }
     // a decimal escape directly followed by literal digits, and directly by another escape
     v.push((vec![65, b'1'], "\\0651".to_string()));
     v.push((vec![1, b'1', b'2', b'3'], "\\001123".to_string()));
